@@ -16,6 +16,23 @@ pub struct Out<'a> {
 impl<'a> Out<'a> {
     pub fn put(&mut self, stratum: &str, req: String) {
         writeln!(self.w, "{}\t{}", stratum, req).unwrap();
+        // The conversion traits (`FromStr`, `TryFrom<&str>`, `From`/`TryFrom` between decimals and primitives) are separate
+        // impls in the crate: every fifth eligible request (chosen by a hash of its text, so that the random streams of the
+        // generators are not disturbed) is repeated through them, and every request of the limit/edge strata.
+        let Some((op, rest)) = req.split_once(' ') else { return };
+        if !matches!(op, "parse_str" | "to_int" | "from_int" | "to_float" | "from_float") {
+            return;
+        }
+        let mut h: u64 = 0xcbf29ce484222325;
+        for b in req.bytes() {
+            h = (h ^ b as u64).wrapping_mul(0x100000001b3);
+        }
+        let edge = stratum.starts_with("limit") || stratum.starts_with("exp-limit") || stratum.starts_with("special-case");
+        if h % 5 != 0 && !edge {
+            return;
+        }
+        let via = if op == "parse_str" { if (h >> 8) % 2 == 0 { "fromstr" } else { "tryfrom" } } else { "t" };
+        writeln!(self.w, "{}@trait\t{}@{} {}", stratum, op, via, rest).unwrap();
     }
     pub fn q(&self, quick: usize, thorough: usize) -> usize {
         if self.thorough { thorough } else { quick }
@@ -635,6 +652,28 @@ pub fn g_nonascii_chars(o: &mut Out, types: &[&str]) {
     }
 }
 
+/// valid numerals whose *text* is longer than the streaming text buffer although the value fits the type (exponent padded
+/// with zeros, explicit signs), through every string entry point: the borrowed-string entry points (`try_parse_str`,
+/// `FromStr`, `TryFrom<&str>`) have no text capacity, the streaming one may only answer "buffer too small"
+pub fn g_long_valid(o: &mut Out, types: &[&str]) {
+    for ty in types {
+        let capn = text_cap(ty).unwrap_or(128);
+        let cap = text_cap(ty).map_or("-".to_string(), |c| c.to_string());
+        for len in [capn - 1, capn, capn + 1, capn + 2, 2 * capn + 1, 300] {
+            for (head, tail) in [("1e", "5"), ("-1.5E+", "12"), ("+12e-", "3"), ("0.01e", "")] {
+                if len <= head.len() + tail.len() {
+                    continue;
+                }
+                let t = format!("{}{}{}", head, "0".repeat(len - head.len() - tail.len()), tail);
+                for op in ["parse_str", "parse_str@fromstr", "parse_str@tryfrom"] {
+                    writeln!(o.w, "long-valid/{}\t{} {} {}", ty, op, ty, tx(&t)).unwrap();
+                }
+                o.put(&format!("long-valid-fmt/{}", ty), format!("parse_fmt {} {} {} -", ty, cap, tx(&t)));
+            }
+        }
+    }
+}
+
 /// digits after a closed payload, second points, signs inside: longer targeted invalid strings
 pub fn g_targeted_invalid(o: &mut Out) {
     let xs = [
@@ -643,6 +682,8 @@ pub fn g_targeted_invalid(o: &mut Out) {
     for s in xs {
         for ty in TYPES {
             o.put(&format!("targeted-invalid/{}", ty), format!("parse_str {} {}", ty, tx(s)));
+            writeln!(o.w, "targeted-invalid@trait/{}\tparse_str@fromstr {} {}", ty, ty, tx(s)).unwrap();
+            writeln!(o.w, "targeted-invalid@trait/{}\tparse_str@tryfrom {} {}", ty, ty, tx(s)).unwrap();
             o.put(&format!("targeted-invalid-fmt/{}", ty), format!("parse_fmt {} - {} -", ty, tx(s)));
         }
     }
@@ -1186,6 +1227,10 @@ pub fn g_bytes(o: &mut Out) {
     for ty in ["dyn", "big"] {
         let mut lens: Vec<usize> = (0..=64).collect();
         lens.extend([100, 1000, 1001, 1002, 1003, 4096]);
+        if ty == "big" {
+            // "unbounded": lengths far beyond anything else in the run (1 MiB + 4, 4 MiB + 4)
+            lens.extend([65536, 1048576, 1048580]);
+        }
         for len in lens {
             for k in 0..3 {
                 let b = match k {
@@ -1194,7 +1239,7 @@ pub fn g_bytes(o: &mut Out) {
                     _ => o.rng.bytes(len),
                 };
                 o.put(&format!("try_le/{}", ty), format!("try_le {} {}", ty, hex(&b)));
-                if len > 0 && len % 4 == 0 && (ty == "big" || len <= 20) {
+                if len > 0 && len % 4 == 0 && ((ty == "big" && len <= 4096) || len <= 20) {
                     o.put(&format!("bytes/{}", ty), format!("bytes {} {}", ty, hex(&b)));
                 }
             }
